@@ -215,7 +215,7 @@ func freePass() {
 			res.Scens++
 			for _, procs := range []int{1, 16} {
 				runtime.GOMAXPROCS(procs)
-				scn := &scenario{Stream: stream, Targets: sc.Targets, tmIDs: tmIDsFor(sc.Targets)}
+				scn := &scenario{Stream: stream, Targets: sc.Targets, tmIDs: sc.ids()}
 				table := "table-1"
 				tm := map[int]processing.Target{}
 				var targets []*fakeTarget
